@@ -376,6 +376,7 @@ void generate(uint64_t seed, const Str& profile, Desc& d, bool exceptions) {
     else d.p["output"] = cfg.chance(1, 6) ? cfg.range(1, 2) : 0;
     if (f.procReal || f.procSyn) { d.p["separate"] = 1; d.p["synthetic"] = f.procSyn; if (cfg.chance(1, 3)) { static const int es[] = { 28 /*ENOSPC*/, 9 /*EBADF*/, 11 /*EAGAIN*/, 32 /*EPIPE*/, 10 /*ECHILD*/, 5 /*EIO*/ }; d.p["errno_noise"] = es[cfg.below(6)]; } }
     if (profile == "selection" && d.pi("output") == 0 && cfg.chance(1, 3)) d.p["via_api"] = 1;
+    if (d.pi("via_api") && cfg.chance(1, 3)) d.p["asked_before"] = cfg.range(1, 4);      // every test was asked shouldRun() while the filter objects were still plain; they are switched to strict / inverted in place afterwards
     if (d.pi("via_api") && exceptions && cfg.chance(1, 6)) d.p["aborted_run"] = 1;      // an earlier run of the same registry object was left by an exception (thrown by a plugin before the first selected test)
     if (d.pi("via_api") && d.pi("run_ignored") && cfg.chance(1, 3)) d.p["early_ri"] = 1;      // run-ignored is switched on at the registry before the tests are registered
     if (d.pi("via_api") && d.pi("run_ignored") && !d.pi("early_ri") && d.pi("repeat") >= 2 && cfg.chance(1, 2)) d.p["late_ri"] = cfg.range(1, d.pi("repeat") - 1);   // run-ignored switched on between two repetitions
